@@ -983,10 +983,14 @@ class SqlSite:
     def receiver(self):
         return dotted_name(self.call.func.value)
 
-    def param(self, ref):
+    def param(self, ref, flow=None):
         """Python expression bound to an SQL parameter: ref is the position of a `?` (int) or the
         name of a `:name`; the parameters are a literal tuple / list / dict.  None if not resolvable."""
         pn = self.params_node
+        if isinstance(pn, ast.Name) and flow is not None:
+            dv = flow.def_value(pn)        # one dict / tuple shared by several statements
+            if dv is not None:
+                pn = dv
         if isinstance(ref, int) and isinstance(pn, (ast.Tuple, ast.List)) and 0 <= ref < len(pn.elts):
             return pn.elts[ref]
         if isinstance(ref, str) and isinstance(pn, ast.Dict):
